@@ -36,7 +36,15 @@ PROP = dict(
         "Example NoCrashExample.premises_hold, NoCrashExample.runs, NoCrashExample.runs_out_of_gas",
         "C29_no_gas_bug: gas limit < 2^64",
     ],
-    rule=("2000 (quick) transactions from eight streams: uniformly random script bytes of any length; random words biased to defined opcodes with "
+    rule=("DIRECTED streams first (oracle only: no host panic, no Bug): (i) every 64-bit ALU opcode, MLDV, every immediate ALU opcode x boundary "
+          "immediates, NIOP x all 64 immediates, and every wide-integer opcode (128/256 bit; compare/op/mul/div x all 64 immediates x rhs as pointer and "
+          "as value; muldiv/addmod/mulmod) executed in-VM over the FULL cross product of boundary operands (24 u64 values; 18 wide values incl. "
+          "2^(N-1)-1..+2, 3*2^(N-2), MAX-2..MAX, 2^64+-1, half-width+-1: 165 of the 5832 128-bit triples have modulus > 2^127 and residues summing "
+          "past 2^128) under $flag 3 (loops must complete: self-check) and $flag 0; (ii) every defined opcode byte x 40 (quick) samples of adversarial "
+          "register operands (boundary numbers, pointers to boundary data / call structs / own stack / heap, $hp/$sp/$ssp/$is/$pc) and boundary "
+          "immediates, one tiny script each; (iii) receipt limit: exactly N = 65530..65535 receipts at top level then ret/rvrt/panic/log+ret/retd, and "
+          "p logs + CALL + m logs in the callee with the callee's RET/RETD/RVRT landing on slot N, then the caller doing each of those tails "
+          "(free/unit schedule; 120 runs quick, 8 threads); oracle additionally: <= 65535 receipts ending with ScriptResult. THEN 2000 (quick) transactions from eight streams: uniformly random script bytes of any length; random words biased to defined opcodes with "
           "random operands; vmtrace garbage scripts; grammar programs with 3-30% faulty items and garbage in 0-3 contracts; a script calling a "
           "contract of random words; valid grammar scripts with random bit flips and script-data mutations; arbitrary script data; gas limits 0..12000; "
           "default (70%), unit and randomised schedules (costs may be 0; step budget 20000); every tenth round a transaction with 1-3 predicates of "
